@@ -91,6 +91,9 @@ type Verdict struct {
 	// Reject: the request must be refused with one of these errnos and must
 	// not reach the backend.
 	Reject []int64
+	// AnyErrno: one of the applicable refusal reasons is one for which the
+	// statements name no errno: any Rlerror is accepted (still no backend call).
+	AnyErrno bool
 	// Forward: the request reaches the backend; its reply is the success
 	// type if every backend call succeeded, else Rlerror with the errno of
 	// the failing call.
@@ -115,6 +118,10 @@ func badName(n string) bool {
 
 func rej(why string, e ...int64) Verdict { return Verdict{Reject: e, Why: why} }
 
+// rejAny is a refusal for which the statements name no errno; e is what the
+// code uses today (kept so that Reject is never empty).
+func rejAny(why string, e ...int64) Verdict { return Verdict{Reject: e, Why: why, AnyErrno: true} }
+
 func merge(vs []Verdict) (Verdict, bool) {
 	if len(vs) == 0 {
 		return Verdict{}, false
@@ -128,6 +135,9 @@ func merge(vs []Verdict) (Verdict, bool) {
 				seen[e] = true
 				out.Reject = append(out.Reject, e)
 			}
+		}
+		if v.AnyErrno {
+			out.AnyErrno = true
 		}
 		why = append(why, v.Why)
 	}
@@ -167,7 +177,7 @@ func (w *World) Judge(conn int, m wire.Msg) Verdict {
 			rs = append(rs, rej("fenced-directory", EINVAL))
 		}
 		if f.Typ != 'd' {
-			rs = append(rs, rej("not-a-directory", EINVAL))
+			rs = append(rs, rejAny("not-a-directory", EINVAL))
 		}
 		if f.Opened {
 			rs = append(rs, rej("directory-fid-is-open", EINVAL))
@@ -220,7 +230,7 @@ func (w *World) Judge(conn int, m wire.Msg) Verdict {
 			}
 			if len(names) > 0 {
 				if f.Typ != 'd' {
-					rs = append(rs, rej("walk-from-non-directory", EINVAL, ENOTDIR))
+					rs = append(rs, rejAny("walk-from-non-directory", EINVAL, ENOTDIR))
 				}
 				if f.Fenced {
 					rs = append(rs, rej("walk-from-fenced-fid", ENOENT))
@@ -244,10 +254,10 @@ func (w *World) Judge(conn int, m wire.Msg) Verdict {
 				rs = append(rs, rej("fenced", EINVAL))
 			}
 			if f.Opened {
-				rs = append(rs, rej("already-open", EINVAL))
+				rs = append(rs, rejAny("already-open", EINVAL))
 			}
 			if f.Typ == 'l' || f.Typ == 's' {
-				rs = append(rs, rej("type-cannot-be-opened", EINVAL))
+				rs = append(rs, rejAny("type-cannot-be-opened", EINVAL))
 			}
 			if f.Typ == 'd' && u64(m.F[1])&3 != 0 {
 				rs = append(rs, rej("directory-opened-for-writing", EISDIR))
@@ -300,7 +310,7 @@ func (w *World) Judge(conn int, m wire.Msg) Verdict {
 				rs = append(rs, rej("fenced-target-directory", EINVAL))
 			}
 			if t.Typ != 'd' {
-				rs = append(rs, rej("target-not-a-directory", EINVAL))
+				rs = append(rs, rejAny("target-not-a-directory", EINVAL))
 			}
 		}
 		if dontCare() {
@@ -327,7 +337,7 @@ func (w *World) Judge(conn int, m wire.Msg) Verdict {
 				return Verdict{DontCare: true}
 			}
 			if f.isRoot() {
-				rs = append(rs, rej("rename-of-root", EINVAL))
+				rs = append(rs, rejAny("rename-of-root", EINVAL))
 			}
 			if f.Fenced {
 				rs = append(rs, rej("fenced", EINVAL))
@@ -341,7 +351,7 @@ func (w *World) Judge(conn int, m wire.Msg) Verdict {
 				rs = append(rs, rej("fenced-target-directory", EINVAL))
 			}
 			if t.Typ != 'd' {
-				rs = append(rs, rej("target-not-a-directory", EINVAL))
+				rs = append(rs, rejAny("target-not-a-directory", EINVAL))
 			}
 		}
 		if v, ok := merge(rs); ok {
@@ -361,7 +371,7 @@ func (w *World) Judge(conn int, m wire.Msg) Verdict {
 				return Verdict{DontCare: true}
 			}
 			if f.isRoot() {
-				rs = append(rs, rej("remove-of-root", EINVAL))
+				rs = append(rs, rejAny("remove-of-root", EINVAL))
 			}
 			if f.Fenced {
 				rs = append(rs, rej("fenced", EINVAL))
@@ -375,7 +385,7 @@ func (w *World) Judge(conn int, m wire.Msg) Verdict {
 		}
 		if f.X == 2 {
 			if f.XBuf != f.XSize {
-				return rej("xattr-create-size-mismatch", EINVAL)
+				return rejAny("xattr-create-size-mismatch", EINVAL)
 			}
 			return Verdict{Forward: true, Success: wire.Rclunk}
 		}
@@ -409,7 +419,7 @@ func (w *World) Judge(conn int, m wire.Msg) Verdict {
 				rs = append(rs, rej("fenced", EINVAL))
 			}
 			if f.Typ != 'l' {
-				rs = append(rs, rej("not-a-symlink", EINVAL))
+				rs = append(rs, rejAny("not-a-symlink", EINVAL))
 			}
 		}
 		return fwd(wire.Rreadlink)
@@ -437,7 +447,7 @@ func (w *World) Judge(conn int, m wire.Msg) Verdict {
 				rs = append(rs, rej("fenced", EINVAL))
 			}
 			if f.Typ != 'd' {
-				rs = append(rs, rej("not-a-directory", EINVAL))
+				rs = append(rs, rejAny("not-a-directory", EINVAL))
 			}
 			if !f.Opened {
 				rs = append(rs, rej("not-open", EINVAL))
@@ -448,7 +458,8 @@ func (w *World) Judge(conn int, m wire.Msg) Verdict {
 		f := need(0)
 		cnt := u64(m.F[2])
 		if cnt > 4<<20 {
-			rs = append(rs, rej("count-above-4MiB", ENOBUFS))
+			// refuse or shorten: the statements do not say
+			return Verdict{DontCare: true}
 		}
 		if f != nil {
 			switch f.X {
@@ -461,7 +472,7 @@ func (w *World) Judge(conn int, m wire.Msg) Verdict {
 				case cnt == 0 && f.XSize == 0:
 					return Verdict{Local: true, Success: wire.Rread}
 				case cnt == 0:
-					return rej("xattr-read-empty-buffer", EINVAL)
+					return rejAny("xattr-read-empty-buffer", EINVAL)
 				case off+cnt > f.XSize:
 					// reading past the value: the code refuses; a server that
 					// shortens the read instead is equally within the statement
@@ -469,7 +480,7 @@ func (w *World) Judge(conn int, m wire.Msg) Verdict {
 				}
 				return Verdict{Local: true, Success: wire.Rread}
 			case 2:
-				rs = append(rs, rej("read-on-xattr-create-fid", EINVAL))
+				rs = append(rs, rejAny("read-on-xattr-create-fid", EINVAL))
 			default:
 				if !f.Opened {
 					rs = append(rs, rej("not-open", EINVAL))
@@ -487,14 +498,14 @@ func (w *World) Judge(conn int, m wire.Msg) Verdict {
 				off := u64(m.F[1])
 				n := uint64(len(m.F[2].([]byte)))
 				if off != f.XBuf {
-					return rej("xattr-write-not-contiguous", EINVAL)
+					return rejAny("xattr-write-not-contiguous", EINVAL)
 				}
 				if off+n > f.XSize {
-					return rej("xattr-write-beyond-size", EINVAL)
+					return rejAny("xattr-write-beyond-size", EINVAL)
 				}
 				return Verdict{Local: true, Success: wire.Rwrite}
 			case 1:
-				rs = append(rs, rej("write-on-xattr-walk-fid", EINVAL))
+				rs = append(rs, rejAny("write-on-xattr-walk-fid", EINVAL))
 			default:
 				if !f.Opened {
 					rs = append(rs, rej("not-open", EINVAL))
@@ -548,7 +559,7 @@ func (w *World) throughNonDir(base, names []string) (Verdict, bool) {
 			return Verdict{}, false // the backend reports ENOENT itself
 		}
 		if t != 'd' {
-			return Verdict{ForwardFail: []int64{EINVAL, ENOTDIR}, Why: "walk-through-non-directory"}, true
+			return Verdict{ForwardFail: []int64{EINVAL, ENOTDIR}, AnyErrno: true, Why: "walk-through-non-directory"}, true
 		}
 	}
 	return Verdict{}, false
